@@ -14,6 +14,12 @@ worker body PopenFuture.start.run(), as Gallina facts over Spec.ExecSpec.exn_cla
   gen_run_handlers        classes of the except clauses around Popen/communicate in run()
   gen_finally_guarded     whether `self.cancel()` in run()'s finally is protected so that
                           set_result(...) is reached also when cancel() raises
+  gen_refusal_exn         the exception run() raises when a cancel was requested before the spawn
+
+The spawn protocol is whitelisted as a shape (no fact is emitted for it, the model has it built in):
+__init__ creates `self.<lock> = threading.Lock()` and `self.<flag> = False`; cancel() starts with
+`with self.<lock>: self.<flag> = True`; run() assigns self.process exactly once, as
+`with self.<lock>: if self.<flag>: raise <E>(); self.process = Popen(...)`.
 
 Fail-closed: the statement shapes are whitelisted (guard `if not self.is_running(): return`;
 try [parent = psutil.Process(..pid); procs = parent.children(recursive=True); procs.append(parent);
@@ -32,6 +38,7 @@ CLASSES = {
     "subprocess.TimeoutExpired": "EcSubTimeout",
     "psutil.TimeoutExpired": "EcPsTimeout",
     "psutil.NoSuchProcess": "EcNoProc",
+    "ShutdownError": "EcShutdown",
     "Exception": "EcAny",
     "BaseException": "EcAny",
 }
@@ -99,12 +106,24 @@ def translate(src_text):
     # ------------------------------------------------------------------ cancel()
     fn = _method(tree, "PopenFuture", "cancel")
     body = strip_docstring(fn.body)
-    if len(body) < 2:
+    if len(body) < 3:
         raise TranslateError("cancel(): too short")
+    # with self.<lock>: self.<flag> = True
+    w0 = body[0]
+    if not (isinstance(w0, ast.With) and len(w0.items) == 1 and w0.items[0].optional_vars is None
+            and isinstance(w0.items[0].context_expr, ast.Attribute) and ast.unparse(w0.items[0].context_expr.value) == "self"
+            and len(w0.body) == 1 and isinstance(w0.body[0], ast.Assign) and len(w0.body[0].targets) == 1
+            and isinstance(w0.body[0].targets[0], ast.Attribute) and ast.unparse(w0.body[0].targets[0].value) == "self"
+            and isinstance(w0.body[0].value, ast.Constant) and w0.body[0].value.value is True):
+        raise TranslateError(f"cancel(): first statement is not `with self.<lock>: self.<flag> = True`: {ast.unparse(w0)[:80]!r}")
+    lock_attr = w0.items[0].context_expr.attr
+    flag_attr = w0.body[0].targets[0].attr
+    info["spawn_lock"], info["cancel_flag"] = lock_attr, flag_attr
+    body = body[1:]
     g = body[0]
     if not (isinstance(g, ast.If) and ast.unparse(g.test) == "not self.is_running()" and not g.orelse
             and len(g.body) == 1 and isinstance(g.body[0], ast.Return) and g.body[0].value is None):
-        raise TranslateError(f"cancel(): first statement is not `if not self.is_running(): return`: {ast.unparse(g)[:80]!r}")
+        raise TranslateError(f"cancel(): the statement after the request is not `if not self.is_running(): return`: {ast.unparse(g)[:80]!r}")
     t = body[1]
     if not (isinstance(t, ast.Try) and not t.finalbody and not t.orelse):
         raise TranslateError("cancel(): second statement is not a plain try/except")
@@ -187,6 +206,38 @@ def translate(src_text):
             raise TranslateError(f"run(): an except clause does not just store the exception: {ast.unparse(h)[:80]!r}")
         rh += _classes(h.type, "run() except clause")
     info["run_handlers"] = rh
+    # the spawn: `with self.<lock>: if self.<flag>: raise <E>(); self.process = Popen(...)`, the only assignment to self.process
+    spawns = [x for x in ast.walk(runs[0]) if isinstance(x, (ast.Assign, ast.AugAssign, ast.AnnAssign))
+              and any(ast.unparse(t_) == "self.process" for t_ in (x.targets if isinstance(x, ast.Assign) else [x.target]))]
+    withs = [x for x in rt.body if isinstance(x, ast.With)]
+    ok = False
+    if len(spawns) == 1 and len(withs) == 1:
+        ws = withs[0]
+        if (len(ws.items) == 1 and ws.items[0].optional_vars is None and ast.unparse(ws.items[0].context_expr) == f"self.{lock_attr}"
+                and len(ws.body) == 2 and ws.body[1] is spawns[0]
+                and isinstance(spawns[0].value, ast.Call) and ast.unparse(spawns[0].value.func) == "Popen"):
+            t0 = ws.body[0]
+            if (isinstance(t0, ast.If) and ast.unparse(t0.test) == f"self.{flag_attr}" and not t0.orelse and len(t0.body) == 1
+                    and isinstance(t0.body[0], ast.Raise) and t0.body[0].cause is None and isinstance(t0.body[0].exc, ast.Call)
+                    and not t0.body[0].exc.args):
+                info["refusal"] = _cls(t0.body[0].exc.func, "run(): exception raised for a job cancelled before the spawn")
+                ok = True
+    if not ok:
+        raise TranslateError("run(): the spawn is not `with self.<lock>: if self.<flag>: raise <E>(); self.process = Popen(...)` "
+                             f"with the lock and flag of cancel() (self.{lock_attr}, self.{flag_attr})")
+    for x in ast.walk(runs[0]):
+        if isinstance(x, ast.Name) and x.id == "Popen" and not any(x is n for n in ast.walk(spawns[0])):
+            raise TranslateError("run(): Popen is used outside the guarded spawn")
+    # __init__ creates the lock and clears the flag
+    init = _method(tree, "PopenFuture", "__init__")
+    init_src = [ast.unparse(x) for x in init.body]
+    if f"self.{lock_attr} = threading.Lock()" not in init_src or f"self.{flag_attr} = False" not in init_src:
+        raise TranslateError(f"__init__: `self.{lock_attr} = threading.Lock()` / `self.{flag_attr} = False` not found")
+    for fdef in ast.walk(tree):
+        if isinstance(fdef, ast.FunctionDef) and fdef.name not in ("__init__", "cancel"):
+            for x in ast.walk(fdef):
+                if isinstance(x, ast.Attribute) and x.attr == flag_attr and isinstance(x.ctx, ast.Store):
+                    raise TranslateError(f"{fdef.name}(): assigns self.{flag_attr}")
     fb = rt.finalbody
     # finally: [if self.process: self.cancel()] ; self.set_result((...))
     if not fb or not (isinstance(fb[-1], ast.Expr) and _is_call(fb[-1].value, "self", "set_result")):
@@ -231,6 +282,8 @@ def translate(src_text):
         f"Definition gen_run_handlers : list exn_class := {lst(info['run_handlers'])}.",
         "(* run(): is self.cancel() in the finally block protected, so that set_result is always reached? *)",
         f"Definition gen_finally_guarded : bool := {'true' if guarded else 'false'}.",
+        "(* run(): the exception raised when a cancel was requested before the spawn *)",
+        f"Definition gen_refusal_exn : exn_class := {info['refusal']}.",
         "",
     ]
     return "\n".join(lines), info
@@ -267,7 +320,17 @@ def selfcheck(info):
         p.wait()
     if issubclass(psutil.TimeoutExpired, psutil.NoSuchProcess) or issubclass(psutil.NoSuchProcess, psutil.TimeoutExpired):
         bad.append("psutil.TimeoutExpired and psutil.NoSuchProcess are related by inheritance")
-    for c in (psutil.TimeoutExpired, psutil.NoSuchProcess, subprocess.TimeoutExpired):
+    import halmos.processes as hp
+
+    for c in (psutil.TimeoutExpired, psutil.NoSuchProcess, subprocess.TimeoutExpired, hp.ShutdownError):
         if not issubclass(c, Exception):
             bad.append(f"{c.__name__} is not an Exception")
+    for c in (psutil.TimeoutExpired, psutil.NoSuchProcess, subprocess.TimeoutExpired):
+        if issubclass(hp.ShutdownError, c) or issubclass(c, hp.ShutdownError):
+            bad.append(f"ShutdownError and {c.__name__} are related by inheritance")
+    # the lock / flag exist on a fresh future, with the initial values the model starts from
+    f = hp.PopenFuture(["true"])
+    lk = getattr(f, info["spawn_lock"], None)
+    if lk is None or not hasattr(lk, "acquire") or lk.locked() or getattr(f, info["cancel_flag"], None) is not False:
+        bad.append("a fresh PopenFuture does not have a free spawn lock and a cleared cancel flag")
     return bad
